@@ -2,6 +2,7 @@
 # Runs the quick check of every claimed property against /repo and refreshes evidence/.
 cd "$(dirname "$0")/.."
 rc=0
+selftest/engine.sh || { rc=1; echo "FAILED: engine self-test"; }
 for id in $(python3 -c "import json; print(' '.join(c['property_id'] for c in json.load(open('MANIFEST.json'))['checks']))"); do
   ./check $id ${1:-quick} 2>&1 | tail -${2:-1}; [ ${PIPESTATUS[0]} -eq 0 ] || { rc=1; echo "FAILED: $id"; }
 done
